@@ -75,6 +75,20 @@ def class_identified_by_loader(chk: Check, rule: str = 'PROV-loader-precedence')
     chk.ob(rule, sv, ok, 'the class is identified by the loader in effect (custom if given, else default)', kind='class-identified-by-loader')
 
 
+def persist_hook_before_members(chk: Check, rule: str) -> None:
+    """Both save_instance_state and load_instance_state of Savable let the class declare its members (the ``persist()`` hook, via _ensure_persist_configured) BEFORE
+    they save / load the declared members: a load in an interpreter that has not saved an instance of the class yet would otherwise skip the hook-declared ones."""
+    prog = chk.prog
+    for name in ('save_instance_state', 'load_instance_state'):
+        f_ = prog.func(f'persistence.Savable.{name}')
+        c_ = [c for c in calls_in_func(f_, '_ensure_persist_configured')]
+        cfg_ = cfg_of(f_)
+        users = [m for m in cfg_.nodes if any(isinstance(x, ast.Call) and last_name(x) in ('save_members', 'load_members') for x in (walk_shallow(m.expr()) if m.expr() is not None else []))]
+        cn = [m for c in c_ for m in cfg_.nodes_containing(c)]
+        ok = bool(c_) and bool(users) and all(cfg_.must_pass(cfg_.entry, [u], lambda m: m in cn, edge_ok=no_exc) for u in users)
+        chk.ob(rule, f_, ok, f'{name} lets the class declare its members (persist hook) before it handles them', kind='persist-hook-before-members')
+
+
 def class_loaded_by_loader(chk: Check, rule: str = 'PROV-loader-precedence') -> None:
     """Savable.load asks the loader of THIS load -- the object _ensure_object_loader put into the context -- for the class, every time: a class remembered from an
     earlier load (keyed by the loader's type, say) was resolved by whichever loader instance came first."""
@@ -82,6 +96,26 @@ def class_loaded_by_loader(chk: Check, rule: str = 'PROV-loader-precedence') -> 
     ld = prog.func('persistence.Savable.load')
     lo = [c for c in calls_in_func(ld, 'load_object')]
     ok = len(lo) == 1 and norm(lo[0].func) == 'load_context.loader.load_object' and any(last_name(c) == '_ensure_object_loader' for c in calls_in_func(ld))
+    # ... on EVERY path: the class whose recreate_from is called is what that call returned -- not one kept from an earlier load (by identifier, by loader type ...)
+    if ok:
+        from ..decisions import paths_under, value_on_path
+        fl = chk.ctx.facts.analyse(ld)
+        rc = [c for c in calls_in_func(ld, 'recreate_from') if isinstance(c.func, ast.Attribute)]
+        got = set()
+        try:
+            for path in paths_under(fl, {}):
+                for i, m in enumerate(path):
+                    for c in rc:
+                        if m.expr() is not None and any(c is x for x in walk_shallow(m.expr())):
+                            got.add(norm(value_on_path(path, i, c.func.value, depth=1)))
+        except RuntimeError:
+            got.add('<too many paths>')
+        want = norm(lo[0])
+        ok = bool(rc) and bool(got) and got <= {want}
+        if not ok:
+            chk.ob(rule, ld, False, f'the class recreated is on every path {want} -- found {sorted(got)}: a class remembered from an earlier load was resolved by whichever loader came first',
+                   node=rc[0] if rc else None, kind='class-loaded-by-loader')
+            return
     chk.ob(rule, ld, ok, 'load() resolves the class through the loader chosen by _ensure_object_loader', kind='class-loaded-by-loader')
 
 
@@ -121,7 +155,11 @@ def loader_precedence(chk: Check, rule: str = 'PROV-loader-precedence') -> None:
                 any(isinstance(s, ast.Assign) and norm(s.targets[0]) == lv and is_default(s.value) for s in h.body)
                 or (not any(isinstance(x, ast.Name) and x.id == lv and isinstance(x.ctx, ast.Store) for s in h.body for x in ast.walk(s)) and bool(before) and is_default(before[-1].value)
                     and not any(isinstance(x, (ast.Raise, ast.Return)) for s in h.body for x in ast.walk(s)))) for h in t.handlers)
-            after_get = t.orelse + [s for s in t.body if not any(isinstance(c, ast.Call) and last_name(c) == 'get_custom_meta' for c in ast.walk(s))]
+            # what the handler covers is the lookup alone: ObjectLoader.load_object signals an unknown identifier with ValueError too, and a recorded loader that cannot
+            # be obtained must not be mistaken for "none recorded" (the state would be read by the default loader, the class name meaning something else to it)
+            covered = [c for s in t.body for c in ast.walk(s) if isinstance(c, ast.Call) and last_name(c) != 'get_custom_meta']
+            after = [s for s in eol.node.body if s.lineno > t.lineno] if t in eol.node.body else []
+            after_get = (t.orelse + after) if not covered else []
             e_ok = any(isinstance(s, ast.Assign) and norm(s.targets[0]) == lv and ('loader_identifier' in _R(eol).text(s.value) or 'get_custom_meta' in _R(eol).text(s.value)) for s in after_get)
             ok = h_ok and e_ok
     chk.ob(rule, eol, ok, '3) the global default is used only when the saved state names none', kind='default-last')
@@ -172,14 +210,7 @@ def run(chk: Check) -> None:
     chk.ob('PROV-auto-persist-copy', epc, ok, f'persist() is run once per object and the "configured" mark is kept on {sorted(holders)}: '
            + ('not inheritable' if ok else 'a class-level mark is inherited by every subclass, whose own persist() -- and the members it declares -- is then skipped'),
            node=marks[0] if marks else None, kind='persist-hook-per-object')
-    for name in ('save_instance_state', 'load_instance_state'):
-        f_ = prog.func(f'persistence.Savable.{name}')
-        c_ = [c for c in calls_in_func(f_, '_ensure_persist_configured')]
-        cfg_ = cfg_of(f_)
-        users = [m for m in cfg_.nodes if any(isinstance(x, ast.Call) and last_name(x) in ('save_members', 'load_members') for x in (walk_shallow(m.expr()) if m.expr() is not None else []))]
-        cn = [m for c in c_ for m in cfg_.nodes_containing(c)]
-        ok = bool(c_) and bool(users) and all(cfg_.must_pass(cfg_.entry, [u], lambda m: m in cn, edge_ok=no_exc) for u in users)
-        chk.ob('PROV-auto-persist-copy', f_, ok, f'{name} lets the class declare its members (persist hook) before it handles them', kind='persist-hook-before-members')
+    persist_hook_before_members(chk, 'PROV-auto-persist-copy')
     ap = prog.func('persistence.Savable.auto_persist')
     # the classmethod form (used from persist()): the set it adds to is the class's OWN -- an inherited set is copied first, else the members land in the parent
     apf = chk.ctx.facts.analyse(ap)
